@@ -521,6 +521,81 @@ func init() {
 			emit("bk.dump")
 		}
 	}}
+	// share groups (C06): three member clients, two groups over overlapping shared filters, plain subscriptions of the same
+	// clients; members join, leave (UNSUBSCRIBE, DISCONNECT, connection loss, clean reconnect) and rejoin while a
+	// publisher keeps publishing — the membership the broker selects from must be the current one
+	suites["brokershare"] = suite{gen: func(r *rand.Rand, n int, emit func(string)) {
+		topics := []string{"a/b", "a/c", "x"}
+		shared := []string{"$share/g/a/b", "$share/g/a/#", "$share/h/a/+", "$share/g/x"}
+		plain := []string{"a/b", "a/#", "#"}
+		ids := []string{"m1", "m2", "m3"} // three members: the model resolves Go's map order among at most three candidates per group
+		for done := 0; done < n; {
+			emit("reset")
+			emit("bk.new")
+			emit(fmt.Sprintf("bk.conn 1 %d 1 %s", pick(r, []int{4, 5}), hs("pub")))
+			next := 2
+			open := map[string]int{}
+			ver := map[string]int{}
+			pid := 10
+			conn := func(id string) {
+				v := pick(r, []int{4, 5, 5})
+				kv := ""
+				clean := r.Intn(3) == 0
+				if v == 5 && !clean {
+					kv = " sei=1000"
+				}
+				cl := 0
+				if clean {
+					cl = 1
+				}
+				emit(fmt.Sprintf("bk.conn %d %d %d %s%s", next, v, cl, hs(id), kv))
+				open[id], ver[id] = next, v
+				next++
+			}
+			sub := func(id string, f string) {
+				pid++
+				opt := fmt.Sprintf("%s:%d", hs(f), r.Intn(2))
+				if ver[id] == 5 {
+					opt = fmt.Sprintf("%s:%d:0:0:0", hs(f), r.Intn(2))
+				}
+				emit(fmt.Sprintf("bk.send %d SUBSCRIBE id=%d f=%s", open[id], pid, opt))
+			}
+			// every member joins the first group filter, so the group is populated from the start
+			for _, id := range ids {
+				conn(id)
+				sub(id, shared[r.Intn(2)])
+			}
+			for i, l := 0, 15+r.Intn(30); i < l; i++ {
+				done++
+				id := pick(r, ids)
+				c, ok := open[id]
+				switch k := r.Intn(20); {
+				case k < 9:
+					emit(fmt.Sprintf("bk.send 1 PUBLISH q=%d id=%d t=%s p=%s", r.Intn(2), 1+r.Intn(3), hs(pick(r, topics)), hs(fmt.Sprintf("s%d", done))))
+				case !ok:
+					conn(id)
+				case k < 12:
+					sub(id, pick(r, shared))
+				case k < 13:
+					sub(id, pick(r, plain))
+				case k < 16:
+					pid++
+					emit(fmt.Sprintf("bk.send %d UNSUBSCRIBE id=%d f=%s", c, pid, hs(pick(r, shared))))
+				case k < 17:
+					emit(fmt.Sprintf("bk.send %d DISCONNECT", c))
+					delete(open, id)
+				case k < 18:
+					emit(fmt.Sprintf("bk.drop %d", c))
+					delete(open, id)
+				case k < 19:
+					emit(fmt.Sprintf("bk.ack %d", c))
+				default:
+					emit("bk.dump")
+				}
+			}
+			emit("bk.dump")
+		}
+	}}
 	suites["broker"] = suite{gen: genBroker(false)}
 	// the same histories with connection losses whose handler is held before its session clean-up
 	// while other ops (typically a reconnect of the same client id) run: schedules of the old
